@@ -41,7 +41,7 @@ var (
 	PNumbers = Profile{MaxDepth: 3, MaxFan: 4, Scalars: ScalarsNumbers, Keys: KeysSmall, PArr: 0.55, PLeaf: 0.4, Empty: true}
 	// values whose TEXT looks like JSON / YAML syntax: a reader or writer that pre- or post-processes text
 	// with patterns (trailing commas, comments, escapes, number spellings) rewrites them
-	ScalarsSyntaxy = []any{",]", ", }", "[1,2,]", "{\"a\":1,}", "a,]b", "//c", "/*c*/", "#c", "\\u0026", "1e+06", "key: value", "- item", "<<: x", "null", "~", "'q'", "\"q\"", 1.0, true}
+	ScalarsSyntaxy = []any{",]", ", }", "[1,2,]", "{\"a\":1,}", "a,]b", "//c", "/*c*/", "#c", "\\u0026", "1e+06", "x\ufeffy", "a\u007fb", -1.0, "key: value", "- item", "<<: x", "null", "~", "'q'", "\"q\"", 1.0, true}
 	PSyntaxy       = Profile{MaxDepth: 3, MaxFan: 4, Scalars: ScalarsSyntaxy, Keys: []string{"a", "b", ",]", "k,", "#c", "x: y"}, PArr: 0.5, PLeaf: 0.4, Empty: true}
 	PHostile       = Profile{MaxDepth: 3, MaxFan: 4, Scalars: ScalarsSmall, Keys: KeysHostile, PArr: 0.45, PLeaf: 0.35, Empty: true}
 )
@@ -70,6 +70,16 @@ func LongArrayPair(r *RNG) ([]any, []any) {
 		}
 	}
 	b := append([]any{}, a...)
+	if r.Chance(0.1) {
+		// the array grows (or starts) by more than a dozen elements at once
+		if r.Chance(0.5) {
+			a = []any{}
+		}
+		for k := r.Range(13, 22); k > 0; k-- {
+			b = append(b, float64(r.Intn(7)))
+		}
+		return a, b
+	}
 	for e := r.Range(1, 3); e > 0; e-- {
 		m := len(b)
 		if m == 0 {
